@@ -129,7 +129,10 @@ void floyd_warshall(
     for(unsigned i=0;i<es.size();i++) {
         unsigned u=es[i].first, v=es[i].second;
         COLA_ASSERT(u<n&&v<n);
-        D[u][v] = D[v][u] = (eweights.size() > 0) ? eweights[i] : 1;
+        // Keep the lightest of any parallel edges and leave the zero
+        // diagonal alone for self-loops.
+        T w = (eweights.size() > 0) ? eweights[i] : 1;
+        if (u != v) D[u][v] = D[v][u] = std::min(D[u][v], w);
     }
     for(unsigned k=0; k<n; k++) {
         for(unsigned i=0; i<n; i++) {
